@@ -696,9 +696,12 @@ def gen_scaling(rng, tier):
     mode = str(rng.choice(["objective", "min", "max"]))
     sc = float(rng.uniform(1, 100))
     val = float(rng.uniform(0.5, 5))
-    kw = {"objective": {}, "min": {"minval": float(rng.uniform(0.5, 3))}, "max": {"maxval": float(rng.uniform(0.5, 3))}}[mode]
+    # limits and values of either sign (a displacement limit of -2 mm is as admissible as +2 mm)
+    sg = float(rng.choice([1.0, 1.0, -1.0]))
+    kw = {"objective": {}, "min": {"minval": sg * float(rng.uniform(0.5, 3))}, "max": {"maxval": sg * float(rng.uniform(0.5, 3))}}[mode]
     r = rng.random()
-    x0 = [val if r < 0.35 else (np.array(val) if r < 0.6 else rng.uniform(0.5, 5, int(rng.integers(1, 6))))]
+    val = val * float(rng.choice([1.0, 1.0, -1.0]))
+    x0 = [val if r < 0.35 else (np.array(val) if r < 0.6 else rng.uniform(0.5, 5, int(rng.integers(1, 6))) * rng.choice([1.0, -1.0]))]
 
     def tangent(x0_, y0, v):
         # the factor is frozen at the first response (documented memory): objective sf = scaling/|x0|
